@@ -295,7 +295,13 @@ class SynchronousMemory(Logic):
         
         s = f'(* ramstyle = "no_rw_check" *) reg [{w-1}:0] mem [0:{numcells-1}];\n'
 
-        s += f'reg [{w-1}:0] rreaddata;\n'
+        # the simulated memory powers up with all cells and the output at 0
+        s += f'reg [{w-1}:0] rreaddata = 0;\n'
+        s += 'integer init_i;\n'
+        s += 'initial begin\n'
+        s += f' for (init_i = 0; init_i < {numcells}; init_i = init_i + 1)\n'
+        s += '  mem[init_i] = 0;\n'
+        s += 'end\n'
         s += 'always @(posedge clk) begin\n'
         s += 'if (write) \n'
         s += ' mem[write_address] <= writedata;\n'
